@@ -39,7 +39,7 @@ def run_session(cfg, ctx, nreq, fp=True):
     world.reset()
     tr, T, R, ka = cfg['transport'], cfg['T'], cfg['R'], cfg['ka']
     letters = letters_for(tr)
-    peer = WatchPeer(tr, T, ctx, letters, ['ok'])
+    peer = WatchPeer(tr, T, ctx, letters, ['ok', 'refused', 'hang'] if tr == 'tcp' and cfg.get('tcp_connect', True) else ['ok'])
     peer.max_open = 0
     if tr == 'udp' and cfg.get('udp_connect', True):
         peer.udp_conn_letters = ['ok', 'netunreach']
@@ -85,7 +85,7 @@ def run_session(cfg, ctx, nreq, fp=True):
         loop.settle(0)
         import gc
         log = kern.log[l0:]
-        o = Obs(result=res, t0=t0, t1=t1, txs=[(t, fd, d) for (t, fd, d, _) in peer.sent[s0:]],
+        o = Obs(asked=0x891C + 16 * i, result=res, t0=t0, t1=t1, txs=[(t, fd, d) for (t, fd, d, _) in peer.sent[s0:]],
                 letters=[x for (_, _, _, x) in peer.sent[s0:]], valid_for=peer.valid_for[s0:],
                 events=[e for e in log if e[0] in ('tx', 'rx', 'connect', 'connected')],
                 rx=[e for e in log if e[0] == 'rx' and t0 - TOL <= e[2] <= t1 + TOL],
@@ -131,7 +131,7 @@ def _run_chained(cfg, ctx, nreq, loop, kern, peer, p):
         log = kern.log[m['l0']:m['l1']]
         sent = peer.sent[m['s0']:m['s1']]
         last = i == len(marks) - 1
-        out.append(Obs(result=m['res'], t0=m['t0'], t1=m['t1'], txs=[(t, fd, d) for (t, fd, d, _) in sent],
+        out.append(Obs(asked=0x891C + 16 * i, result=m['res'], t0=m['t0'], t1=m['t1'], txs=[(t, fd, d) for (t, fd, d, _) in sent],
                        letters=[x for (_, _, _, x) in sent], valid_for=peer.valid_for[m['s0']:m['s1']],
                        events=[e for e in log if e[0] in ('tx', 'rx', 'connect', 'connected')],
                        rx=[e for e in log if e[0] == 'rx' and m['t0'] - TOL <= e[2] <= m['t1'] + TOL],
@@ -245,7 +245,8 @@ def monitors(cfg, obs_list):
         if res[0] == 'ok' and o.clean_start:
             if n == 0:
                 out.append(('C01', 'delivered-without-transmitting', f'request {i + 1} returned {len(res[1])} bytes without sending anything', i))
-            elif not any(res[1].startswith(v) for v in o.valid_for if v is not None):
+            elif not any(res[1].startswith(v) for (v, (_, _, d)) in zip(o.valid_for, o.txs) if v is not None and
+                         (o.get('asked') is None or int.from_bytes(d[8:10] if tr == 'tcp' else d[2:4], 'big') == o['asked'])):
                 # (startswith: a stream transport may deliver the answer with trailing bytes of a duplicate; C01's
                 # classifier decides whether that is well-formed - here only: whose answer is it)
                 out.append(('C01', 'delivered-frame-answers-this-request', f'request {i + 1} returned a frame that answers none of its transmissions', i))
@@ -322,8 +323,11 @@ def explore_sessions(tier, seed, props, light=False):
             for R in ((1, 2) if tier == 'thorough' else (1,)):
                 cfg = dict(transport=tr, ka=ka, T=1, R=R)
                 if tier == 'thorough':
-                    jobs.append((cfg, 2, 4 if R == 1 else 3, props))
-                    jobs.append((cfg, 3, 3 if R == 1 else 2, props))
+                    # (TCP connect outcomes {ok, refused, hang} are a choice point in the jobs bounded by 2 deviations)
+                    jobs.append((dict(cfg, tcp_connect=False), 2, 4 if R == 1 else 3, props))
+                    jobs.append((dict(cfg, tcp_connect=R != 1), 3, 3 if R == 1 else 2, props))
+                    if R == 1:
+                        jobs.append((cfg, 3, 2, props))
                 else:
                     jobs.append((cfg, 3, 2, props))
                 if R == 1:
@@ -335,7 +339,7 @@ def explore_sessions(tier, seed, props, light=False):
         for tr in ('udp', 'tcp'):
             for ka in (False, True):
                 # (datagram connect outcomes stay a choice point in the 2-deviation jobs above; here they are fixed to 'ok')
-                jobs.append((dict(transport=tr, ka=ka, T=1, R=1, udp_connect=False), 2, 3, props))
+                jobs.append((dict(transport=tr, ka=ka, T=1, R=1, udp_connect=False, tcp_connect=False), 2, 3, props))
     # split the larger jobs by the answer to the very first transmission (the subtrees are independent executions)
     split = []
     for j in jobs:
